@@ -378,6 +378,169 @@ fn run_ops(driver: DriverType, capacity: u32, prog: &[OStep]) -> Result<String, 
     Ok(format!("{}|{}|{}", woken_since, data_pending, prompt))
 }
 
+// ---------------------------------------------------------------------------------------------
+// Runtime level: the external event loop (compio-compat's `drive`) and task wakers
+// ---------------------------------------------------------------------------------------------
+//
+// The loop: run() the tasks, flush(); if nothing is left and the driver was not notified, wait
+// for the driver's descriptor (here: poll(2), bounded); then poll(0). BETWEEN two iterations --
+// while the loop is parked on the descriptor -- the host may run other callbacks on the runtime's
+// own thread (spawn a task, invoke a task's waker) and other threads may invoke wakers. Every
+// program over {spawn a parking task, wake task i on this thread, wake task i from another
+// thread, one loop iteration} up to a depth; oracle: after a waker was invoked, the parked loop
+// is un-parked (descriptor readable within the watchdog, or the loop was not going to park) and
+// the woken task is polled again by that iteration.
+
+#[derive(Clone, Copy, Debug, PartialEq)]
+enum XStep {
+    Spawn,
+    WakeLocal(usize),
+    WakeRemote(usize),
+    Iter,
+}
+
+struct XTask {
+    polls: Rc<Cell<usize>>,
+    slot: Rc<RefCell<Option<std::task::Waker>>>,
+}
+
+fn xloop_programs(depth: usize) -> Vec<Vec<XStep>> {
+    // enabledness depends only on the prefix: a task can be woken once it has been polled by an
+    // Iter after its spawn (then it has stored its waker) and has not been woken since
+    fn rec(prefix: &mut Vec<XStep>, depth: usize, out: &mut Vec<Vec<XStep>>) {
+        if !prefix.is_empty() && *prefix.last().unwrap() == XStep::Iter && prefix.iter().any(|s| matches!(s, XStep::WakeLocal(_) | XStep::WakeRemote(_))) {
+            out.push(prefix.clone());
+        }
+        if prefix.len() >= depth {
+            return;
+        }
+        // per task: 0 = spawned, not polled yet; 1 = parked with a stored waker; 2 = woken, not yet
+        // re-polled; 3 = finished
+        let mut state: Vec<u8> = Vec::new();
+        for s in prefix.iter() {
+            match s {
+                XStep::Spawn => state.push(0),
+                XStep::WakeLocal(i) | XStep::WakeRemote(i) => state[*i] = 2,
+                XStep::Iter => {
+                    for t in state.iter_mut() {
+                        *t = match *t {
+                            0 => 1,
+                            2 => 3,
+                            x => x,
+                        };
+                    }
+                }
+            }
+        }
+        let mut next: Vec<XStep> = vec![XStep::Iter];
+        if state.len() < 3 {
+            next.push(XStep::Spawn);
+        }
+        for (i, t) in state.iter().enumerate() {
+            if *t == 1 {
+                next.push(XStep::WakeLocal(i));
+                next.push(XStep::WakeRemote(i));
+            }
+        }
+        for n in next {
+            prefix.push(n);
+            rec(prefix, depth, out);
+            prefix.pop();
+        }
+    }
+    let mut out = Vec::new();
+    rec(&mut Vec::new(), depth, &mut out);
+    out
+}
+
+fn run_xloop(driver: DriverType, prog: &[XStep]) -> Result<String, (String, String)> {
+    use std::os::fd::AsRawFd as _;
+    let mut pb = ProactorBuilder::new();
+    pb.driver_type(driver).capacity(8);
+    let mut rb = compio_runtime::Runtime::builder();
+    rb.with_proactor(pb);
+    let rt = rb.build().map_err(|e| ("setup".to_string(), format!("{e}")))?;
+    let fd = rt.as_raw_fd();
+    let mut tasks: Vec<XTask> = Vec::new();
+    // (task, "local"/"remote", a spawn happened on this thread since the loop parked)
+    let mut outstanding: Vec<(usize, &'static str, bool)> = Vec::new();
+    let mut spawned_since_park = false;
+    // the loop parks only if the last run()/flush() left nothing to do
+    let run_and_flush = |rt: &compio_runtime::Runtime| -> bool {
+        let remaining = rt.enter(|| rt.run());
+        remaining | rt.flush()
+    };
+    let mut will_park = !run_and_flush(&rt);
+    let mut sig = String::new();
+    for (k, st) in prog.iter().enumerate() {
+        match *st {
+            XStep::Spawn => {
+                let polls = Rc::new(Cell::new(0usize));
+                let slot: Rc<RefCell<Option<std::task::Waker>>> = Rc::new(RefCell::new(None));
+                let (p2, s2) = (polls.clone(), slot.clone());
+                let fut = std::future::poll_fn(move |cx| {
+                    p2.set(p2.get() + 1);
+                    if p2.get() >= 2 {
+                        std::task::Poll::Ready(())
+                    } else {
+                        *s2.borrow_mut() = Some(cx.waker().clone());
+                        std::task::Poll::Pending
+                    }
+                });
+                rt.enter(|| rt.spawn(fut)).detach();
+                tasks.push(XTask { polls, slot });
+                spawned_since_park = true;
+            }
+            XStep::WakeLocal(i) => {
+                let w = tasks[i].slot.borrow_mut().take().ok_or_else(|| ("harness".to_string(), format!("step {k}: task {i} has no stored waker")))?;
+                w.wake();
+                outstanding.push((i, "local", spawned_since_park));
+            }
+            XStep::WakeRemote(i) => {
+                let w = tasks[i].slot.borrow_mut().take().ok_or_else(|| ("harness".to_string(), format!("step {k}: task {i} has no stored waker")))?;
+                std::thread::spawn(move || w.wake()).join().unwrap();
+                outstanding.push((i, "remote", spawned_since_park));
+            }
+            XStep::Iter => {
+                let before: Vec<usize> = tasks.iter().map(|t| t.polls.get()).collect();
+                if will_park {
+                    if !outstanding.is_empty() {
+                        // the parked loop has to be un-parked by the wake-up
+                        if !fd_readable(fd, T_BLOCK_LONG) {
+                            let (i, how, sp) = outstanding[0];
+                            return Err((
+                                format!("lost-wakeup:external-loop:task-waker:{how}:{}", if sp { "after-a-spawn-on-the-runtime-thread" } else { "plain" }),
+                                format!("step {k}: the loop is parked on the driver's descriptor, the waker of task {i} was invoked ({how}), but the descriptor did not become readable within {} ms: the loop sleeps for ever and the task is never polled", T_BLOCK_LONG.as_millis()),
+                            ));
+                        }
+                    }
+                    // nothing outstanding: the host loop would stay parked; the harness goes on
+                }
+                rt.poll_with(Some(Duration::ZERO));
+                let mut again = run_and_flush(&rt);
+                let mut rounds = 0;
+                while again && rounds < 8 {
+                    rt.poll_with(Some(Duration::ZERO));
+                    again = run_and_flush(&rt);
+                    rounds += 1;
+                }
+                will_park = !again;
+                for (i, how, _) in outstanding.drain(..) {
+                    if tasks[i].polls.get() == before[i] {
+                        return Err((format!("woken-task-not-polled:external-loop:{how}"), format!("step {k}: task {i} was woken ({how}) but the loop iteration did not poll it")));
+                    }
+                }
+                spawned_since_park = false;
+                sig.push_str(&format!("{}", tasks.iter().map(|t| t.polls.get().min(2).to_string()).collect::<String>()));
+                sig.push('|');
+            }
+        }
+    }
+    drop(tasks);
+    drop(rt);
+    Ok(sig)
+}
+
 fn main() {
     let args = vcore::parse_args();
     let rep = Report::new(&args.property, args.tier);
@@ -478,9 +641,45 @@ fn main() {
             }
         }
     });
+    // external loop x task wakers on the real Runtime
+    rep.must_reach("extloop-local-wake-after-spawn");
+    rep.must_reach("extloop-remote-wake");
+    let xprogs = xloop_programs(args.tier.pick(5, 6));
+    let mut xitems: Vec<(DriverType, Vec<XStep>)> = Vec::new();
+    for d in [DriverType::IoUring, DriverType::Poll] {
+        for pr in &xprogs {
+            xitems.push((d, pr.clone()));
+        }
+    }
+    vcore::par_for_each_n(&xitems, vcore::threads().min(16), |_, (d, prog)| {
+        let r = run_xloop(*d, prog);
+        rep.add_execution(prog.len() as u64 + 1);
+        rep.add_states(1);
+        if prog.windows(2).any(|w| w[0] == XStep::Spawn && matches!(w[1], XStep::WakeLocal(_))) {
+            rep.count("extloop-local-wake-after-spawn", 1);
+        }
+        if prog.iter().any(|s| matches!(s, XStep::WakeRemote(_))) {
+            rep.count("extloop-remote-wake", 1);
+        }
+        match r {
+            Ok(sig) => rep.outcome(format!("xloop|{d:?}|{sig}")),
+            Err((key, detail)) => {
+                if run_xloop(*d, prog).is_ok() {
+                    rep.count("unconfirmed-timing-anomalies", 1);
+                    return;
+                }
+                rep.violation(Violation {
+                    key: format!("{d:?}:{key}"),
+                    what: format!("driver {d:?} external-loop program {prog:?}: {detail}"),
+                    replay: json!({"engine":"e_c03","family":"extloop","driver":format!("{d:?}"),"program":format!("{prog:?}")}),
+                });
+            }
+        }
+    });
+    rep.extra("extloop_programs", json!(xprogs.len()));
     rep.extra("ops_programs", json!(oprogs.len()));
     rep.extra("bounds", json!({"program_depth": depth, "alphabet": ["poll(0)", "poll(T)", "external-loop iteration: flush, wait for the descriptor unless notified, poll(0)"], "blocking_waits_per_program": "1..=2", "T_block_ms": T_BLOCK.as_millis() as u64, "prompt_ms": PROMPT.as_millis() as u64, "drivers": ["IoUring", "Poll"], "fresh_and_primed": true}));
-    rep.rule("every program of driver calls up to program_depth x every position of one wake-up: between calls, at every cfg(compio_verif) interleaving point inside poll/flush, and from a second thread while blocked; executed on the real io_uring and polling drivers; a violation is re-run once before it is reported");
+    rep.rule("(runtime level) every program up to depth 5/6 over {spawn a parking task, invoke task i's waker on the runtime thread, invoke it from another thread, one external-loop iteration (wait for the descriptor if the loop parked, poll(0), run, flush)} on the real Runtime, both drivers: an invoked waker un-parks the loop and the task is polled by that iteration; (driver level) every program of driver calls up to program_depth x every position of one wake-up: between calls, at every cfg(compio_verif) interleaving point inside poll/flush, and from a second thread while blocked; executed on the real io_uring and polling drivers; a violation is re-run once before it is reported");
     rep.assume("performing the wake synchronously at an interleaving point is equivalent to another thread performing it there (the wake is one atomic RMW on the flag followed by at most one eventfd/poller write)");
     rep.assume("real time is used only as a watchdog: prompt < 30 ms vs. blocking wait 60 ms");
     if args.tier == Tier::Quick {}
